@@ -58,6 +58,14 @@ def gen_layout_schema(r, prefix="L"):
                 fields[-1]["unit"] = r.choice(["m/s", "C", "V", "rpm", ""])
         decls.append(mk_struct(n, fields))
         structs.append(n)
+    # a struct whose layout cannot be computed (fixed fields followed by a variable-size one): its
+    # bindings make generate() fail part-way, which must not disturb later calls on the same encoder
+    if r.random() < 0.5:
+        n = "%sVar" % prefix
+        fields = [{"name": "v%d" % j, "id": j, "type": rand_scalar(r, enums)} for j in range(r.randint(1, 3))]
+        fields.insert(r.randint(1, len(fields)), {"name": "tail", "id": 20, "type": r.choice([("str",), ("dyn", ("u", 8)), ("opt", ("u", 3))])})
+        decls.append(mk_struct(n, fields))
+        structs.append(n)
     # bindings
     sdecl = {d["name"]: d for d in decls if d["kind"] == "struct"}
     pairs = set()
@@ -153,7 +161,7 @@ def gen_budget_struct(r, name, budget, enums, enum_w, structs, struct_w, fidx, f
 
 
 def gen_can_schema(r, prefix="C", max_bindings=6, flat=False, buses=True, big_endian=True, mux=True,
-                   devices=False, floats=True, enum_maxes=None):
+                   devices=False, floats=True, enum_maxes=None, second_bindings=False):
     """CAN schema with every bound struct <= 64 bits.  Returns decls."""
     from . import schema as S
     from ..ref import layout as RL
@@ -178,7 +186,8 @@ def gen_can_schema(r, prefix="C", max_bindings=6, flat=False, buses=True, big_en
             structs.append(n)
             struct_w[n] = w
     nb = r.randint(1, max_bindings)
-    ids = r.sample(range(0, 2048), nb)
+    ids = r.sample(range(0, 1024), nb)
+    extra_ids = []
     bus_names = r.sample(["can0", "can1", "pt", "b", "x1"], r.randint(1, 3))
     dev_names = r.sample(["ecu", "bms", "inv", "dash"], r.randint(1, 3))
     for i in range(nb):
@@ -210,13 +219,29 @@ def gen_can_schema(r, prefix="C", max_bindings=6, flat=False, buses=True, big_en
             others = [f for f in scal if f["name"] not in used]
             if cands and len(others) >= 2:
                 m = r.choice(cands)
-                cnt = r.randint(1, min(16, 1 << m["type"][1]))
-                for f in r.sample([o for o in others if o is not m], r.randint(1, min(2, len(others) - 1))):
+                for f in r.sample([o for o in others if o is not m], r.randint(1, min(3, len(others) - 1))):
+                    # every multiplexed signal has its own count (they share the multiplexer)
+                    cnt = r.randint(1, min(16, 1 << m["type"][1]))
                     items.append(("signal", f["name"], [("mux_count", cnt), ("mux_signal", ("s", m["name"]))]))
                     used.add(f["name"])
         rename = ("%sRen%d" % (prefix, i)) if r.random() < 0.3 else None
         r.shuffle(items)
         decls.append({"kind": "impl", "protocol": "can", "type": n, "name": rename, "items": items})
+        if second_bindings and r.random() < 0.35:
+            # the same struct bound a second time under another name, with different per-signal options
+            items2 = [("field", "id", next(x for x in range(2047, -1, -1) if x not in ids and x not in extra_ids))]
+            extra_ids.append(items2[0][2])
+            for it in items:
+                if it[0] == "field" and it[1] in ("bus", "device", "period"):
+                    items2.append(it)
+            had_big = {it[1] for it in items if it[0] == "signal" and any(k == "endianess" for k, _ in it[2])}
+            for f in scal:
+                st, wd, t = lay[f["name"]]
+                if big_endian and st % 8 == 0 and wd in (8, 16, 32, 64) and f["name"] not in had_big and r.random() < 0.7:
+                    items2.append(("signal", f["name"], [("endianess", ("s", "big"))]))
+                elif r.random() < 0.2:
+                    items2.append(("signal", f["name"], [("comment", ("s", "second"))]))
+            decls.append({"kind": "impl", "protocol": "can", "type": n, "name": "%sAgain%d" % (prefix, i), "items": items2})
     # a non-CAN binding and an unbound struct never show up in CAN output
     if r.random() < 0.4:
         n = "%sOther" % prefix
